@@ -22,6 +22,7 @@ let dispatchers : (string list -> string option) list = [
   C_wire.dispatch;
   C_vsock.dispatch;
   C_mtu.dispatch;
+  C_disp.dispatch;
 ]
 
 let dispatch line =
